@@ -44,6 +44,12 @@ def fs_rules(b):
     return MpReachNLRI.parse(v)['nlri']
 
 
+def fs_rules_un(b):
+    from yabgp.message.attribute.mpunreachnlri import MpUnReachNLRI
+    v = struct.pack('!HB', 1, 133) + b
+    return MpUnReachNLRI.parse(v)['withdraw']
+
+
 DECODERS = {
     'v4prefix': lambda b: items(Update.parse_prefix_list(b)),
     'v6prefix': lambda b: items(IPv6Unicast.parse(b)),
@@ -53,6 +59,7 @@ DECODERS = {
     'vpn6': lambda b: items(IPv6MPLSVPN.parse(b)),
     'evpn': lambda b: items(EVPN.parse(b)),
     'fsrule': lambda b: items(fs_rules(b)),
+    'fsrule_un': lambda b: items(fs_rules_un(b)),
     'comm': lambda b: items(Community.parse(b)),
     'extcomm': lambda b: items(ExtCommunity.parse(b)),
     'large': lambda b: items(LargeCommunity.parse(b)),
